@@ -655,7 +655,52 @@ func mutate(rng *rand.Rand, s string) string {
 	b := []byte(s)
 	k := 1 + rng.Intn(3)
 	for j := 0; j < k; j++ {
-		switch rng.Intn(5) {
+		switch rng.Intn(7) {
+		case 5, 6: // insert (or double) a structural byte right after a separator, i.e. where the next token starts
+			var ps []int
+			for i := 0; i+1 < len(b); i++ {
+				if (b[i] == ':' && b[i+1] == ' ') || (b[i] == ']' && b[i+1] == ':') {
+					ps = append(ps, i+2)
+				} else if b[i] == ' ' {
+					ps = append(ps, i+1)
+				}
+				// ... and on either side of any structural byte (name:[type], name[[type], ]::value ...)
+				if strings.IndexByte(":[]'", b[i]) >= 0 {
+					ps = append(ps, i, i+1)
+				}
+			}
+			// two sharper variants: a colon in front of a type bracket (name:[type]), and a colon or
+			// bracket right after a colon (old-key:[..., ]::value)
+			if v := rng.Intn(3); v > 0 {
+				var qs []int
+				for i := range b {
+					if (v == 1 && b[i] == '[') || (v == 2 && b[i] == ':') {
+						qs = append(qs, i+v-1)
+					}
+				}
+				if len(qs) > 0 {
+					q := qs[rng.Intn(len(qs))]
+					x := byte(':')
+					if v == 2 && rng.Intn(2) == 0 {
+						x = '['
+					}
+					nb := append([]byte{}, b[:q]...)
+					nb = append(nb, x)
+					b = append(nb, b[q:]...)
+					continue
+				}
+			}
+			if len(ps) > 0 {
+				p := ps[rng.Intn(len(ps))]
+				const structural = ":[]'\"( ."
+				x := structural[rng.Intn(len(structural))]
+				nb := append([]byte{}, b[:p]...)
+				nb = append(nb, x)
+				if rng.Intn(3) == 0 {
+					nb = append(nb, ":[]'"[rng.Intn(4)])
+				}
+				b = append(nb, b[p:]...)
+			}
 		case 0: // delete a byte
 			if len(b) > 0 {
 				p := rng.Intn(len(b))
@@ -849,7 +894,7 @@ func init() {
 		var printed []string
 		for i := 0; i < n; i++ {
 			switch r := rng.Intn(20); {
-			case r < 16:
+			case r < 14:
 				c := pcase{Mode: "printed", Change: genChange(rng)}
 				printed = append(printed, c.input())
 				cases = append(cases, c)
@@ -865,7 +910,7 @@ func init() {
 				cases = append(cases, rawCase("garbage", genGarbage(rng)))
 			}
 		}
-		rep.Rule = "corpus first (directed branch cases, every finding's witness, every message literal of /repo's own tests), then seeded: 80% messages printed by the Go port of the reference test_decoding printer from random abstract changes (identifiers: plain / keyword / spaces, quotes, colons, brackets, dots, UTF-8, marker look-alikes; types: built-in multi-word, \"char\", user-defined quoted, schema-qualified, arrays; values: numerics, booleans, null, unchanged-toast-datum, bit strings, quoted text incl. empty, doubled quotes, brackets, colons, newlines, UTF-8; rare zero-column tuples), 15% byte-mutated printer output (delete / insert / flip / truncate anywhere and right after structural bytes), 5% garbage (BEGIN/COMMIT with Unicode white space, 'table' + structural soup, short strings, random bytes). Non-trivial: the decoder returned a result with at least one column, or the input was printed from a change; distinct by input bytes."
+		rep.Rule = "corpus first (directed branch cases, every finding's witness, every message literal of /repo's own tests), then seeded: 70% messages printed by the Go port of the reference test_decoding printer from random abstract changes (identifiers: plain / keyword / spaces, quotes, colons, brackets, dots, UTF-8, marker look-alikes; types: built-in multi-word, \"char\", user-defined quoted, schema-qualified, arrays; values: numerics, booleans, null, unchanged-toast-datum, bit strings, quoted text incl. empty, doubled quotes, brackets, colons, newlines, UTF-8; rare zero-column tuples), 25% byte-mutated printer output (delete / insert / flip / truncate anywhere and right after structural bytes; structural bytes inserted where a token starts), 5% garbage (BEGIN/COMMIT with Unicode white space, 'table' + structural soup, short strings, random bytes). Non-trivial: the decoder returned a result with at least one column, or the input was printed from a change; distinct by input bytes."
 		var sb strings.Builder
 		// the list is emitted in chunks: type-checking one huge literal list is superlinear in coqc
 		const chunk = 50
